@@ -163,16 +163,7 @@ def run(ctx):
                                       "ops": [["check"], ["used"], ["valex"], ["example"]]}))
             meta.append({"wires": wires, "roottypes": roottypes, "missing": missing, "root_refs": root_refs, "types": texts, "cyclic": any(i in r for i, r in enumerate(refs)) or len(allrefs) > 0})
     mod = vc.model_parallel("recursion_model", mlines)
-    try:
-        imp = vc.impl_parallel(["schema"], ilines, shards=16, timeout=600)
-    except RuntimeError:
-        # a case crashed or hung the process: isolate it
-        imp = []
-        for l in ilines:
-            try:
-                imp.append(vc.impl(["schema"], [l], timeout=30)[0])
-            except RuntimeError as e:
-                imp.append(json.dumps(["CRASH", "CRASH", "CRASH", "CRASH"]))
+    imp = vc.impl_isolating(["schema"], ilines, 4)
     for ml, il, m, o, md in zip(mlines, ilines, mod, imp, meta):
         ctx.evaluations += 1
         r = json.loads(o)
@@ -234,7 +225,7 @@ def run(ctx):
             for ops in ([["check"], ["used"]], [["used"], ["check"], ["used"]], [["valex"], ["used"]]):
                 ulines.append(json.dumps({"schema": text, "types": [[nm, C3.print_node(env, env[nm])] for nm in names], "ops": ops}))
                 umeta.append((text, want, ops))
-    for (text, want, ops), o in zip(umeta, vc.impl_parallel(["schema"], ulines)):
+    for (text, want, ops), o in zip(umeta, vc.impl_isolating(["schema"], ulines, 3)):
         r = json.loads(o)
         ctx.evaluations += 1
         for op, x in zip(ops, r):
